@@ -868,3 +868,6 @@ func (c *RecCache) Fingerprint() string {
 	}
 	return fmt.Sprintf("%x", h.Sum(nil)[:8])
 }
+
+// SeedBytes derives configuration bytes from the plan seed and a label.
+func (w *World) SeedBytes(label string, n int) []byte { return w.seedBytes(label, n) }
